@@ -53,24 +53,25 @@ type namedSrc struct{ name, text, file string }
 
 // inputs is everything one iteration feeds to the library.
 type inputs struct {
-	it        int64
-	stream    string
-	root      string
-	rootFile  string     // file name of the root schema ("" is what most callers pass)
-	types     []namedSrc // added user types
-	enumName  string
-	enumFile  string
-	enum      string
-	regex     string
-	doc       string
-	keysOpt   bool  // jschema.KeysAreOptionalByDefault()
-	fromFile  bool  // FromFile(fs.NewFile(name, []byte)) instead of New(name, string)
-	trailing  bool  // json.AllowTrailingNonSpaceCharacters()
-	regexType bool  // the regex schema is added as type @rg
-	misuse    bool  // API misuse calls (nil arguments, AddRule after compilation, foreign Document)
-	nested    bool  // the first added type gets the other types added to itself first
-	dupType   bool  // the first type is added twice
-	order     []int // order of the root schema's methods
+	it           int64
+	stream       string
+	root         string
+	rootFile     string     // file name of the root schema ("" is what most callers pass)
+	types        []namedSrc // added user types
+	enumName     string
+	enumFile     string
+	enum         string
+	regex        string
+	doc          string
+	keysOpt      bool  // jschema.KeysAreOptionalByDefault()
+	fromFile     bool  // FromFile(fs.NewFile(name, []byte)) instead of New(name, string)
+	trailing     bool  // json.AllowTrailingNonSpaceCharacters()
+	regexType    bool  // the regex schema is added as type @rg
+	regexSpecial bool  // the regex text got a special atom (addSpecialAtom)
+	misuse       bool  // API misuse calls (nil arguments, AddRule after compilation, foreign Document)
+	nested       bool  // the first added type gets the other types added to itself first
+	dupType      bool  // the first type is added twice
+	order        []int // order of the root schema's methods
 
 	useExample bool // the document is the schema's own example (doc holds a placeholder until then)
 }
@@ -373,6 +374,13 @@ func (cfg *config) makeInputs(it int64) (inputs, *rand.Rand) {
 	in.fromFile = r.Intn(4) == 0
 	in.trailing = r.Intn(5) == 0
 	in.regexType = in.regexType || r.Intn(4) == 0
+	// the special-atom class of regex types (gen.go: addSpecialAtom), decided by a PRNG of its own so that every
+	// other choice of the iteration stays what it is without this class
+	if r2 := iterRand(cfg.seed^0x7e9e5, it); stream != "trunc-all" && r2.Intn(6) == 0 {
+		in.regex = clip(addSpecialAtom(r2, in.regex))
+		in.regexSpecial = true
+		in.regexType = true
+	}
 	in.misuse = r.Intn(8) == 0
 	in.nested = len(in.types) > 1 && r.Intn(8) == 0
 	in.dupType = len(in.types) > 0 && r.Intn(16) == 0
@@ -482,12 +490,13 @@ type result struct {
 }
 
 type ictx struct {
-	w    *worker
-	in   *inputs
-	dump string
-	res  *result
-	src  map[string]int // file name -> length of the source (-1: synthesised text, unknown)
-	root *fs.File
+	w     *worker
+	in    *inputs
+	dump  string
+	res   *result
+	src   map[string]int // file name -> length of the source (-1: synthesised text, unknown)
+	root  *fs.File
+	files []srcFile // the sources of the iteration that have a text of the user (callers of kit.ConvertError)
 
 	trace bool // print "M <method>" before every call (child process replaying one iteration)
 }
@@ -673,28 +682,93 @@ func (c *ictx) checkErr(method string, err error) {
 	if p != "" {
 		c.diff(method, "inspecting the error: "+p, "Error()/Message()/ErrCode()/Position() do not panic", "")
 	}
-	// kit.ConvertError on the same error
-	p = guard(func() {
-		ke := kit.ConvertError(c.root, err)
-		_ = ke.Filename()
-		_ = ke.Position()
-		_ = ke.ErrCode()
-		_ = ke.IncorrectUserType()
-		if ke.Message() == "" {
-			var ve jlib.ValidationError
-			if stderrors.As(err, &ve) && ve.Message() == "" {
-				return // already reported above
+	// kit.ConvertError on the same error: for the caller that holds the root file (what client code usually passes),
+	// and for a caller that holds the file the error names or another source of the iteration
+	// (two conversions per error: the root file, and in turn the file the error names / the next source. An error
+	// that IS the positioned error type comes back as itself whatever the caller holds: the second conversion is made
+	// for one in eight of them, and for every error that is wrapped, a validation error or no library error)
+	callers := append(make([]srcFile, 0, 2), c.files[0])
+	if _, direct := err.(liberrors.DocumentError); direct && c.res.errs%8 != 0 {
+		c.stat("converted:second-caller-skipped")
+	} else if turn := c.res.errs / 8; turn%2 == 0 {
+		var named interface{ Filename() string }
+		if stderrors.As(err, &named) {
+			name := ""
+			if guard(func() { name = named.Filename() }) == "" {
+				for _, f := range c.files[1:] {
+					if f.name == name {
+						callers = append(callers, f)
+						break
+					}
+				}
 			}
-			c.diff(method+"+kit.ConvertError", "Message() is empty", "non-empty message", "")
 		}
-		if e, ok := ke.(error); ok {
-			_ = e.Error()
+	} else if f := c.files[1+(turn/2)%(len(c.files)-1)]; f.name != c.files[0].name {
+		callers = append(callers, f)
+	}
+	for k, f := range callers {
+		p = guard(func() { c.checkConverted(method, f, err, k == 0) })
+		c.res.calls++
+		if k == 0 {
+			c.stat("call:kit.ConvertError")
+		} else {
+			c.stat("call:kit.ConvertError(another caller)")
 		}
-	})
-	c.res.calls++
-	c.stat("call:kit.ConvertError")
-	if p != "" {
-		c.diff(method+"+kit.ConvertError", p, "no panic", "")
+		if p != "" {
+			c.diff(method+"+kit.ConvertError", p, "no panic", "")
+		}
+	}
+}
+
+// srcFile: a source of the iteration, by file name.
+type srcFile struct {
+	name, text string
+	file       *fs.File
+}
+
+// checkConverted: what kit.ConvertError(file, err) hands to the caller. The clause of the property on it: a
+// message; Filename() names the caller's file or a source of the iteration and Position() lies inside it (position
+// 0 of an empty source is "no position"); and a result that presents the positioned error inside err (its code and
+// message) describes that error's place - its position AND its file, not its position in the caller's file.
+func (c *ictx) checkConverted(method string, f srcFile, err error, first bool) {
+	m := method + "+kit.ConvertError"
+	ke := kit.ConvertError(f.file, err)
+	name, pos, code, msg := ke.Filename(), int(ke.Position()), ke.ErrCode(), ke.Message()
+	_ = ke.IncorrectUserType()
+	if msg == "" && first {
+		var ve jlib.ValidationError
+		if !(stderrors.As(err, &ve) && ve.Message() == "") { // else already reported by checkErr
+			c.diff(m, "Message() is empty", "non-empty message", "")
+		}
+	}
+	if e, ok := ke.(error); ok {
+		_ = e.Error()
+	}
+	l, known := len(f.text), true
+	if name != f.name {
+		l, known = c.src[name]
+	}
+	call := func() string { return fmt.Sprintf("kit.ConvertError(file %q, err)", f.name) }
+	switch {
+	case !known:
+		c.stat("converted:file-unknown")
+		c.diff(m, fmt.Sprintf("%s: code=%d position %d in file %q which is neither the caller's file nor a source", call(), code, pos, name), "the result refers to a source", "")
+	case l < 0:
+		c.stat("converted:synthesised-source")
+	default:
+		lim := l
+		if lim < 1 {
+			lim = 1
+		}
+		if pos >= lim {
+			c.diff(m, fmt.Sprintf("%s: code=%d position %d >= max(1,len)=%d of file %q", call(), code, pos, lim, name), "position inside the source the result refers to", "")
+		}
+	}
+	var de liberrors.DocumentError
+	if stderrors.As(err, &de) && code == de.ErrCode() && msg == de.Message() && code != int(liberrors.ErrGeneric) {
+		if name != de.Filename() || pos != int(de.Position()) {
+			c.diff(m, fmt.Sprintf("%s: presents the error code=%d of file %q position %d as file %q position %d", call(), code, de.Filename(), de.Position(), name, pos), "the place of the error it presents: its file and its position", "")
+		}
 	}
 }
 
@@ -776,6 +850,13 @@ func runIter(it int64, cfg *config, w *worker) *result {
 		c.src[t.file] = len(t.text)
 	}
 	c.root = fs.NewFile(in.rootFile, in.root)
+	c.files = []srcFile{{name: in.rootFile, text: in.root}, {name: in.enumFile, text: in.enum}, {name: "rg", text: in.regex}, {name: "doc", text: in.doc}, {name: "@k", text: fixedKType}}
+	for _, t := range in.types {
+		c.files = append(c.files, srcFile{name: t.file, text: t.text})
+	}
+	for i := range c.files {
+		c.files[i].file = fs.NewFile(c.files[i].name, c.files[i].text)
+	}
 	useExample := in.useExample
 	c.src["doc"] = len(in.doc)
 	c.dump = in.dump()
